@@ -709,4 +709,342 @@ pub fn run(report: &Report, tier: &Tier) {
     run_parallel(report, real, threads().min(8), tier.budget_s * 0.25, |i, l| {
         run_case_b(util::mix(seed, 0xC14_C000 + i), l);
     });
+    if tier.thorough || std::env::var("VERIF_C14_TSAN").is_ok() {
+        tsan_part(report, seed);
+        memcheck_part(report, seed);
+    }
+}
+
+// ---------------------------------------------------------------------------
+// Part B under ThreadSanitizer (thorough tier)
+//
+// The same real-thread workload, built a second time with `-Zsanitizer=thread` and an
+// instrumented standard library, run in short sharded processes. Every report block the
+// sanitizer writes is a violation of X5 ("safe under concurrent use"); the behavioural rules
+// of Part B are judged in the shards as well (the sanitizer changes the timing, which adds
+// schedules). If the instrumented build cannot be produced the part is recorded as not run:
+// it never decides anything then.
+
+/// `check C14-partB <cases> <seed> <summary.json>`: what a shard runs.
+pub fn run_part_b_only(cases: u64, seed: u64, out: &str) -> i32 {
+    let report = Report::new("C14", "tsan-shard", seed);
+    run_parallel(&report, cases, 4, 1.0e9, |i, l| {
+        run_case_b(util::mix(seed, 0xC14_D000 + i), l);
+    });
+    match std::fs::write(out, serde_json::to_string(&report.summary()).unwrap()) {
+        Ok(()) => 0,
+        Err(_) => 2,
+    }
+}
+
+/// One report block of the sanitizer, reduced to (kind, first frame inside this repository or harness).
+pub fn parse_tsan_log(text: &str) -> Vec<(String, String, String)> {
+    let mut out = Vec::new();
+    for block in text.split("WARNING: ThreadSanitizer: ").skip(1) {
+        let kind = block.split(" (pid=").next().unwrap_or("").lines().next().unwrap_or("").trim().to_string();
+        let mut frame = String::new();
+        for line in block.lines() {
+            let t = line.trim_start();
+            if !t.starts_with('#') {
+                continue;
+            }
+            if t.contains("mdns_sd::") || t.contains("mdnsverif::") || t.contains("flume::") {
+                // "#3 mdns_sd::service_daemon::Zeroconf::run::h0123 /repo/src/..:12" -> function without hash
+                let f = t.split_whitespace().nth(1).unwrap_or("");
+                let f = match f.rfind("::h") {
+                    Some(p) if f.len() - p == 19 => &f[..p],
+                    _ => f,
+                };
+                frame = f.to_string();
+                break;
+            }
+        }
+        if frame.is_empty() {
+            frame = "no-frame-of-the-crate".into();
+        }
+        let head: String = block.lines().take(40).collect::<Vec<_>>().join("\n");
+        out.push((kind.replace(' ', "-"), frame, head));
+    }
+    out
+}
+
+fn wait_with_limit(child: &mut std::process::Child, limit_s: f64) -> Option<std::process::ExitStatus> {
+    let start = Instant::now();
+    loop {
+        match child.try_wait() {
+            Ok(Some(st)) => return Some(st),
+            Ok(None) => {}
+            Err(_) => return None,
+        }
+        if start.elapsed().as_secs_f64() > limit_s {
+            let _ = child.kill();
+            let _ = child.wait();
+            return None;
+        }
+        std::thread::sleep(Duration::from_millis(100));
+    }
+}
+
+pub fn tsan_part(report: &Report, seed: u64) {
+    use std::process::{Command, Stdio};
+    let verif_dir = crate::report::VERIF_DIR;
+    let harness = env!("CARGO_MANIFEST_DIR");
+    let target = format!("{verif_dir}/target/tsan");
+    let logs = format!("{target}/logs");
+    let _ = std::fs::remove_dir_all(&logs);
+    let _ = std::fs::create_dir_all(&logs);
+    let not_run = |why: String| {
+        println!("NOTE property=C14 the ThreadSanitizer part was not run: {why}");
+        report.extra("thread_sanitizer", json!({"status": "not run", "reason": why}));
+    };
+    let t0 = Instant::now();
+    let build_log = format!("{target}/build.log");
+    let Ok(log_file) = std::fs::File::create(&build_log) else {
+        return not_run(format!("cannot write {build_log}"));
+    };
+    let Ok(log_file2) = log_file.try_clone() else {
+        return not_run("cannot clone the build log handle".into());
+    };
+    let child = Command::new("cargo")
+        .args(["+nightly", "build", "-Zbuild-std", "--target", "x86_64-unknown-linux-gnu", "--offline", "--profile", "checked", "--bin", "check"])
+        .current_dir(harness)
+        .env("RUSTFLAGS", "-Zsanitizer=thread")
+        .env("CARGO_TARGET_DIR", &target)
+        .env("CARGO_NET_OFFLINE", "true")
+        .stdin(Stdio::null())
+        .stdout(Stdio::from(log_file))
+        .stderr(Stdio::from(log_file2))
+        .spawn();
+    let mut child = match child {
+        Ok(c) => c,
+        Err(e) => return not_run(format!("cargo could not be started: {e}")),
+    };
+    match wait_with_limit(&mut child, 1200.0) {
+        Some(st) if st.success() => {}
+        Some(st) => return not_run(format!("the instrumented build failed ({st}); see {build_log}")),
+        None => return not_run("the instrumented build did not finish within 20 minutes".into()),
+    }
+    let build_s = t0.elapsed().as_secs_f64();
+    let bin = format!("{target}/x86_64-unknown-linux-gnu/checked/check");
+    if !std::path::Path::new(&bin).exists() {
+        return not_run(format!("{bin} is missing after the build"));
+    }
+    let symbolizer = ["/usr/bin/llvm-symbolizer", "/usr/bin/llvm-symbolizer-14", "/usr/lib/llvm-14/bin/llvm-symbolizer"]
+        .iter()
+        .find(|p| std::path::Path::new(p).exists())
+        .map(|p| format!(" external_symbolizer_path={p}"))
+        .unwrap_or_default();
+    let shards: u64 = 16;
+    let cases_per_shard: u64 = 120;
+    let mut children = Vec::new();
+    for k in 0..shards {
+        let out = format!("{logs}/summary{k}.json");
+        let opts = format!("halt_on_error=0 exitcode=0 log_path={logs}/shard{k}{symbolizer}");
+        let c = Command::new(&bin)
+            .args(["C14-partB", &cases_per_shard.to_string(), &util::mix(seed, 0x75A0 + k).to_string(), &out])
+            .env("TSAN_OPTIONS", opts)
+            .env("VERIF_THREADS", "4")
+            .stdin(Stdio::null())
+            .stdout(Stdio::null())
+            .stderr(Stdio::null())
+            .spawn();
+        if let Ok(c) = c {
+            children.push((k, c, out));
+        }
+    }
+    let mut l = Local::default();
+    let mut finished = 0u64;
+    let mut calls = 0u64;
+    let mut cases = 0u64;
+    for (k, mut c, out) in children {
+        match wait_with_limit(&mut c, 900.0) {
+            Some(_) => {}
+            None => {
+                l.count("tsan_shards_timed_out", 1);
+                continue;
+            }
+        }
+        let Ok(text) = std::fs::read_to_string(&out) else {
+            l.count("tsan_shards_without_summary", 1);
+            continue;
+        };
+        let Ok(v) = serde_json::from_str::<serde_json::Value>(&text) else { continue };
+        finished += 1;
+        cases += v["evaluations"].as_u64().unwrap_or(0);
+        calls += v["counters"]["real_calls"].as_u64().unwrap_or(0);
+        for viol in v["violations"].as_array().cloned().unwrap_or_default() {
+            l.violate(
+                Violation::new(viol["rule"].as_str().unwrap_or("X5"), viol["signature"].as_str().unwrap_or("X5/tsan/unknown"), viol["message"].as_str().unwrap_or(""))
+                    .with(json!({"under": "ThreadSanitizer", "shard": k, "witness": viol["witness"]})),
+            );
+        }
+    }
+    // the sanitizer's own reports
+    let mut blocks = 0u64;
+    let mut distinct = std::collections::BTreeSet::new();
+    if let Ok(rd) = std::fs::read_dir(&logs) {
+        for e in rd.flatten() {
+            let name = e.file_name().to_string_lossy().to_string();
+            if !name.starts_with("shard") {
+                continue;
+            }
+            let Ok(text) = std::fs::read_to_string(e.path()) else { continue };
+            for (kind, frame, head) in parse_tsan_log(&text) {
+                blocks += 1;
+                distinct.insert(format!("{kind}/{frame}"));
+                l.violate(
+                    Violation::new("X5", format!("X5/tsan/{kind}/{frame}"), format!("ThreadSanitizer reported a {kind} while client threads raced with shutdown (first frame of the crate: {frame})"))
+                        .with(json!({"report_head": head, "log": e.path().to_string_lossy()})),
+                );
+            }
+        }
+    }
+    l.act_n("X5-tsan", calls);
+    let status = if finished == 0 { "not run" } else { "run" };
+    if finished == 0 {
+        println!("NOTE property=C14 the ThreadSanitizer part was not run: no shard finished");
+    }
+    report.extra(
+        "thread_sanitizer",
+        json!({
+            "status": status, "build_s": (build_s * 10.0).round() / 10.0, "shards_started": shards, "shards_finished": finished,
+            "real_daemons": cases, "api_calls_observed": calls, "report_blocks": blocks, "distinct_reports": distinct.into_iter().collect::<Vec<_>>(),
+            "options": "RUSTFLAGS=-Zsanitizer=thread, cargo +nightly -Zbuild-std, TSAN_OPTIONS halt_on_error=0 log_path=<per shard>",
+        }),
+    );
+    report.merge(l);
+}
+
+/// Error contexts of a memcheck log, reduced to (kind, first frame inside the crate, its
+/// dependencies' socket code or the harness).
+pub fn parse_memcheck_log(text: &str) -> (u64, Vec<(String, String, String)>) {
+    let strip = |l: &str| -> String {
+        // "==123== text" -> "text"
+        match l.find("== ") {
+            Some(p) if l.starts_with("==") => l[p + 3..].to_string(),
+            _ => l.trim_start_matches('=').to_string(),
+        }
+    };
+    let lines: Vec<String> = text.lines().map(strip).collect();
+    let mut total = 0u64;
+    for l in &lines {
+        if let Some(rest) = l.strip_prefix("ERROR SUMMARY: ") {
+            total = rest.split_whitespace().next().and_then(|n| n.replace(',', "").parse().ok()).unwrap_or(0);
+        }
+    }
+    let mut out = Vec::new();
+    let mut i = 0;
+    while i < lines.len() {
+        let l = &lines[i];
+        let is_head = !l.is_empty() && !l.starts_with(' ') && i + 1 < lines.len() && lines[i + 1].trim_start().starts_with("at 0x");
+        if is_head {
+            let kind = util::strip_numbers(l).replace(' ', "-");
+            let mut frame = String::new();
+            let mut j = i + 1;
+            let mut head = vec![l.clone()];
+            while j < lines.len() && (lines[j].trim_start().starts_with("at 0x") || lines[j].trim_start().starts_with("by 0x")) {
+                if head.len() < 30 {
+                    head.push(lines[j].clone());
+                }
+                if frame.is_empty() {
+                    let t = lines[j].trim_start();
+                    if ["mdns_sd::", "mdnsverif::", "flume::", "socket2::", "socket_pktinfo::", "mio::", "if_addrs::"].iter().any(|p| t.contains(p)) {
+                        let f = t.splitn(3, ' ').nth(2).unwrap_or("");
+                        let f = f.split(" (").next().unwrap_or(f);
+                        frame = match f.rfind("::h") {
+                            Some(p) if f.len() - p == 19 => f[..p].to_string(),
+                            _ => f.to_string(),
+                        };
+                    }
+                }
+                j += 1;
+            }
+            if frame.is_empty() {
+                frame = "no-frame-of-the-crate".into();
+            }
+            out.push((kind, frame, head.join("\n")));
+            i = j;
+        } else {
+            i += 1;
+        }
+    }
+    (total, out)
+}
+
+/// Part B once more under valgrind memcheck (the uninstrumented binary of this very run):
+/// the real-socket paths through the dependencies' `unsafe` code (recvmsg control messages,
+/// socket options, interface enumeration) are only reached here.
+pub fn memcheck_part(report: &Report, seed: u64) {
+    use std::process::{Command, Stdio};
+    let verif_dir = crate::report::VERIF_DIR;
+    let logs = format!("{verif_dir}/target/memcheck");
+    let _ = std::fs::remove_dir_all(&logs);
+    let _ = std::fs::create_dir_all(&logs);
+    let not_run = |why: String| {
+        println!("NOTE property=C14 the memcheck part was not run: {why}");
+        report.extra("memcheck", json!({"status": "not run", "reason": why}));
+    };
+    let Ok(exe) = std::env::current_exe() else {
+        return not_run("own executable unknown".into());
+    };
+    let shards: u64 = 8;
+    let cases_per_shard: u64 = 25;
+    let mut children = Vec::new();
+    for k in 0..shards {
+        let out = format!("{logs}/summary{k}.json");
+        let c = Command::new("valgrind")
+            .args(["--tool=memcheck", "--error-exitcode=0", "--leak-check=full", "--errors-for-leak-kinds=definite", "--num-callers=30"])
+            .arg(format!("--log-file={logs}/shard{k}.log"))
+            .arg(&exe)
+            .args(["C14-partB", &cases_per_shard.to_string(), &util::mix(seed, 0x3E3C + k).to_string(), &out])
+            .env("VERIF_THREADS", "4")
+            .stdin(Stdio::null())
+            .stdout(Stdio::null())
+            .stderr(Stdio::null())
+            .spawn();
+        match c {
+            Ok(c) => children.push((k, c, out)),
+            Err(e) => return not_run(format!("valgrind could not be started: {e}")),
+        }
+    }
+    let mut l = Local::default();
+    let (mut finished, mut cases, mut calls, mut errors) = (0u64, 0u64, 0u64, 0u64);
+    let mut distinct = std::collections::BTreeSet::new();
+    for (k, mut c, out) in children {
+        if wait_with_limit(&mut c, 900.0).is_none() {
+            l.count("memcheck_shards_timed_out", 1);
+            continue;
+        }
+        let Ok(v) = std::fs::read_to_string(&out).map_err(|_| ()).and_then(|t| serde_json::from_str::<serde_json::Value>(&t).map_err(|_| ())) else {
+            l.count("memcheck_shards_without_summary", 1);
+            continue;
+        };
+        finished += 1;
+        cases += v["evaluations"].as_u64().unwrap_or(0);
+        calls += v["counters"]["real_calls"].as_u64().unwrap_or(0);
+        let log = format!("{logs}/shard{k}.log");
+        let Ok(text) = std::fs::read_to_string(&log) else { continue };
+        let (total, blocks) = parse_memcheck_log(&text);
+        errors += total;
+        for (kind, frame, head) in blocks {
+            distinct.insert(format!("{kind}/{frame}"));
+            l.violate(
+                Violation::new("X5", format!("X5/memcheck/{kind}/{frame}"), format!("valgrind memcheck reported '{kind}' while client threads raced with shutdown (first frame of the crate or its socket dependencies: {frame})"))
+                    .with(json!({"report_head": head, "log": log})),
+            );
+        }
+    }
+    l.act_n("X5-memcheck", calls);
+    if finished == 0 {
+        println!("NOTE property=C14 the memcheck part was not run: no shard finished");
+    }
+    report.extra(
+        "memcheck",
+        json!({
+            "status": if finished == 0 { "not run" } else { "run" }, "shards_started": shards, "shards_finished": finished, "real_daemons": cases,
+            "api_calls_observed": calls, "errors_reported": errors, "distinct_reports": distinct.into_iter().collect::<Vec<_>>(),
+            "options": "valgrind --tool=memcheck --leak-check=full --errors-for-leak-kinds=definite over the checked-profile binary",
+        }),
+    );
+    report.merge(l);
 }
